@@ -89,17 +89,25 @@ Qed.
 
 (* ---- the shape, up to the year 9999 ---------------------------------------------------- *)
 
-(* month and day depend on the day of the 400-year era only: a finite sweep *)
-Definition md_of_doe (doe : N) : N * N :=
-  let yoe := (doe - doe / 1460 + doe / 36524 - doe / 146096) / 365 in
-  let doy := doe - (365 * yoe + yoe / 4 - yoe / 100) in
-  let mp := (5 * doy + 2) / 153 in
-  let d := doy - (153 * mp + 2) / 5 + 1 in
-  let m := if mp <? 10 then mp + 3 else mp - 9 in
-  (m, d).
-
-Definition md_ok (doe : N) : bool :=
-  let '(m, d) := md_of_doe doe in (1 <=? m) && (m <=? 12) && (1 <=? d) && (d <=? 31).
+(* month and day depend on the day of the 400-year era only; their bounds are linear arithmetic
+   with constant divisors (decided by lia over the Euclidean-division equations) *)
+Lemma civil_md days : let '(y, m, d) := civil_from_days days in 1 <= m <= 12 /\ 1 <= d <= 31.
+Proof.
+  unfold civil_from_days. set (z := days + 719468). set (era := z / 146097).
+  set (doe := z - era * 146097).
+  assert (Hdoe : doe < 146097).
+  { subst doe era. pose proof (N.mod_upper_bound z 146097). pose proof (N.div_mod z 146097). lia. }
+  clearbody doe. clear z era. cbv zeta.
+  assert (H : let yoe := (doe - doe / 1460 + doe / 36524 - doe / 146096) / 365 in
+              let doy := doe - (365 * yoe + yoe / 4 - yoe / 100) in
+              let mp := (5 * doy + 2) / 153 in
+              let d := doy - (153 * mp + 2) / 5 + 1 in
+              mp <= 11 /\ 1 <= d <= 31) by (cbv zeta; lia).
+  cbv zeta in H. destruct H as (Hmp & Hd).
+  destruct ((5 * (doe - (365 * ((doe - doe / 1460 + doe / 36524 - doe / 146096) / 365) +
+            (doe - doe / 1460 + doe / 36524 - doe / 146096) / 365 / 4 -
+            (doe - doe / 1460 + doe / 36524 - doe / 146096) / 365 / 100)) + 2) / 153 <? 10) eqn:E; lia.
+Qed.
 
 Fixpoint upto (n : nat) : list N :=
   match n with O => [] | S k => N.of_nat k :: upto k end.
@@ -108,26 +116,6 @@ Lemma upto_in n x : x < N.of_nat n -> In x (upto n).
 Proof.
   induction n as [|k IH]; intro H; [lia|]. cbn [upto].
   destruct (N.eq_dec x (N.of_nat k)) as [->|Hne]; [left; reflexivity | right; apply IH; lia].
-Qed.
-
-Lemma md_sweep : forallb md_ok (upto (N.to_nat 146097)) = true.
-Proof. vm_compute. reflexivity. Qed.
-
-Lemma md_ok_all doe : doe < 146097 -> md_ok doe = true.
-Proof.
-  intro H. pose proof md_sweep as S. rewrite forallb_forall in S. apply S. apply upto_in. lia.
-Qed.
-
-Lemma civil_md days : let '(y, m, d) := civil_from_days days in 1 <= m <= 12 /\ 1 <= d <= 31.
-Proof.
-  unfold civil_from_days. set (z := days + 719468). set (era := z / 146097).
-  set (doe := z - era * 146097).
-  assert (Hdoe : doe < 146097).
-  { subst doe era. pose proof (N.mod_upper_bound z 146097). pose proof (N.div_mod z 146097). lia. }
-  pose proof (md_ok_all doe Hdoe) as H. unfold md_ok, md_of_doe in H. cbv zeta in H |- *.
-  destruct ((5 * (doe - (365 * ((doe - doe / 1460 + doe / 36524 - doe / 146096) / 365) +
-            (doe - doe / 1460 + doe / 36524 - doe / 146096) / 365 / 4 -
-            (doe - doe / 1460 + doe / 36524 - doe / 146096) / 365 / 100)) + 2) / 153 <? 10); lia.
 Qed.
 
 (* two decimal digits for 10..99, four for 1000..9999: finite sweeps *)
